@@ -202,17 +202,28 @@ def gen_scenario(ctx, k):
         if ret != 0 and rng.random() < 0.15 or rng.random() < 0.02:
             sc.add(f'snap s{i}')
     work = []
+
+    def near(idv):
+        """identifiers that are NOT defined but close to a defined one: it extended, truncated, empty, with another case"""
+        c = [idv + 'x', idv + idv, idv[:-1], idv[:1], '', idv.upper() if idv.upper() != idv else idv.lower(), ' ' + idv, idv + ' ']
+        return [x for x in c if x != idv and ' ' not in x and x != '']        # scenario tokens cannot carry blanks or be empty
     for b in cfg['boards']:
         for kind, fn, isp in (('points_board', 'bidib_switch_point', True), ('points_dcc', 'bidib_switch_point', True),
                               ('signals_board', 'bidib_set_signal', False), ('signals_dcc', 'bidib_set_signal', False)):
             for a in b.get(kind) or []:
-                for aid in [x[0] for x in a['aspects']] + [UNK]:
+                defined = [x[0] for x in a['aspects']]
+                nm = [x for x in near(rng.choice(defined)) if x not in defined][:2]
+                for aid in defined + [UNK] + nm:
                     work.append((fn, [S_(a['id']), S_(aid)], lambda a=a, aid=aid, isp=isp: enc.accessory(isp, a['id'], aid)))
+                for pid in near(a['id'])[:1]:
+                    work.append((fn, [S_(pid), S_(defined[0])], lambda pid=pid, d0=defined[0], isp=isp: enc.accessory(isp, pid, d0)))
                 # a point id given to set_signal (and vice versa) names no equipment of that kind
                 other = 'bidib_set_signal' if isp else 'bidib_switch_point'
                 work.append((other, [S_(a['id']), S_(a['aspects'][0][0])], lambda a=a, isp=isp: enc.accessory(not isp, a['id'], a['aspects'][0][0])))
         for a in b.get('peripherals') or []:
-            for aid in [x[0] for x in a['aspects']] + [UNK]:
+            defined = [x[0] for x in a['aspects']]
+            nm = [x for x in near(rng.choice(defined)) if x not in defined][:2]
+            for aid in defined + [UNK] + nm:
                 work.append(('bidib_set_peripheral', [S_(a['id']), S_(aid)], lambda a=a, aid=aid: enc.peripheral(a['id'], aid)))
         for r in b.get('reversers') or []:
             for bb in allb + [UNK]:
